@@ -1,6 +1,7 @@
 import P2PVerif.Driver.Core
 import P2PVerif.Model.Frag
 import P2PVerif.Model.Mbapp
+import P2PVerif.Model.Ask
 import P2PVerif.Model.Distance
 namespace P2PVerif.Driver
 open P2PVerif
@@ -60,6 +61,10 @@ def fragStep (st : FragSt) (ops : List String) (impl : String) : FragSt × Strin
       if h.isAsk then (st, if impl == "fault" then "no-fault" else impl)
       else (st, "tell " ++ toHex body)
   | ["mb-ncols"] => (st, toString st.mst.length)
+  | ["mb-errcode", n] =>
+    let v : Int := if n.startsWith "-" then -((n.drop 1).toString.toNat?.getD 0 : Int) else (n.toNat?.getD 0 : Int)
+    let (c, l) := Ask.extractErrorCode v
+    (st, s!"{c} {l}")
   | _ => (st, "bad-op")
 
 def fragStream : Stream := { σ := FragSt, init := {}, step := fragStep }
